@@ -58,8 +58,44 @@ def check(repo, col, tier):
     c11._named(repo, col, "R-C09-select")
     col.rule("R-C09-rows", "synapse parameters are written only to the selected synapses of the type that has the parameter", 6)
     c10._rows(repo, col, "R-C09-rows")
+    col.rule("R-C09-conductance", "every synaptic current is proportional to the synapse's conductance", 3)
+    conductance_factor(repo, col, "R-C09-conductance")
+    col.rule("R-C09-pstate", "values fed through a synapse view reach the simulation, after the trainables", 4)
+    c10._pstate_args(repo, col, "R-C09-pstate")
     col.rule("R-C09-nameparse", "the mechanism that owns a parameter is never inferred by parsing the parameter's name", 6)
     name_parsing(repo, col, "R-C09-nameparse")
+
+
+def conductance_factor(repo, col, R):
+    """`compute_current` of every synapse type, as an exact form in its states, parameters and the two voltages: the current is a
+    MULTIPLE of the maximal conductance of the synapse (the declared parameter `<name>_g...`), so a synapse with zero conductance
+    injects nothing -- whatever its reversal potential -- and the postsynaptic cell behaves as if simulated alone."""
+    from . import kin
+    from sa.algebra import Und as _Und
+    n = 0
+    for cinfo in kin.mech_classes(repo, "Synapse"):
+        fi = repo.method(cinfo.name, "compute_current")
+        ev = kin.new_eval(repo)
+        try:
+            form, S, P = kin.call_current(ev, repo, cinfo.name, "synapse")
+            form = kin.rat_of(form) if hasattr(kin, "rat_of") else form
+        except _Und as e:
+            col.unk(R, fi, f"{cinfo.name}: current proportional to the conductance", f"outside the analysable fragment: {e}", node=fi.node)
+            continue
+        gs = sorted(k for k in P.reads if k.split("»_")[-1].startswith("g"))
+        if not gs:
+            col.unk(R, fi, f"{cinfo.name}: current proportional to the conductance", f"no conductance parameter among {sorted(P.reads)}", node=fi.node)
+            continue
+        n += 1
+        atoms = [a_ for a_ in (set(form.n.atoms()) | set(form.d.atoms())) if any(a_ == f"P[{g}]" for g in gs)]
+        zero = form
+        for a_ in atoms:
+            zero = kin.subst_atom(zero, a_, kin.ZERO if hasattr(kin, "ZERO") else (form - form))
+        col.check(bool(atoms) and zero.is_zero(), R, fi, f"{cinfo.name}: the current vanishes with the conductance {gs}",
+                  "I = g * (...)", f"with {gs} = 0 the current of {cinfo.name} is {zero}, not 0: a synapse of zero conductance still "
+                  f"injects current (the current is not a multiple of the conductance -- lost parentheses?)", node=fi.node)
+    if n < 2:
+        raise AnalysisError(f"conductance factor: only {n} synapse types analysed")
 
 
 PARSERS = ("split", "rsplit", "partition", "rpartition", "startswith", "endswith", "removeprefix", "removesuffix", "find", "index")
